@@ -126,8 +126,31 @@ impl PairEst for Covariance {
     pair_ingest!();
 }
 
+/// the pair version of `common::feed_any`
+pub fn pfeed_any<E: PairEst>(out: &mut Out, e: &mut E, xs: &[(f64, f64)], rng: &mut Rng) {
+    let n = xs.len();
+    let route = rng.below(8);
+    let h = if n > 1 { rng.below(n) } else { 0 };
+    let ident = |out: &mut Out, e: &mut E, which: usize| {
+        let before = words(e);
+        let copy = if which % 2 == 0 { e.clone() } else { let mut t = E::default(); t.add(1.5, 2.0); t.clone_from(e); t };
+        out.x(words(&copy) == before, || format!("{}: clone / clone_from changed the state: {} -> {}", E::NAME, before, words(&copy)));
+        *e = copy;
+    };
+    match route {
+        0 | 1 => for (a, b) in xs { e.add(*a, *b) },
+        2 => e.extend_val(xs),
+        3 => e.extend_ref(xs),
+        4 => e.extend_lazy(xs),
+        5 => { for (a, b) in &xs[..h] { e.add(*a, *b) } e.extend_ref(&xs[h..]); }
+        6 => { e.extend_val(&xs[..h]); ident(out, e, h); for (a, b) in &xs[h..] { e.add(*a, *b) } }
+        _ => { for (a, b) in &xs[..h] { e.add(*a, *b) } ident(out, e, h + 1); e.extend_lazy(&xs[h..]); }
+    }
+}
+
 pub fn pfeed<E: PairEst>(out: &mut Out, e: &mut E, xs: &[(f64, f64)], trace: Trace, rng: &mut Rng) {
     let n = xs.len();
+    if let Trace::None = trace { if n > 0 && n <= 20_000 { pfeed_any(out, e, xs, rng); return; } }
     for (i, (a, b)) in xs.iter().enumerate() {
         let emit = match trace { Trace::All => true, Trace::Sparse => i < 6 || i + 3 >= n || rng.below(n) < 24, Trace::None => false };
         if emit && out.active {
@@ -480,6 +503,8 @@ fn eval_tree_mixed<E: Est>(out: &mut Out, t: &Tree, k: &mut usize, rng: &mut Rng
     match t {
         Tree::Leaf(v) => {
             *k += 1;
+            // a one-element chunk may also be `from_value(v)` (as either operand of the merges above it)
+            if v.len() == 1 && !v[0].is_nan() && *k % 2 == 0 { if let Some(e) = E::from_value(v[0]) { return e; } }
             match *k % 7 {
                 0 => { let mut e = E::new(); feed(out, &mut e, v, Trace::All, rng); e }
                 1 => E::from_iter_val(v),
